@@ -33,6 +33,11 @@ def pos_options(n, with_empty):
         sl += [(1, None, 2), (None, -1, None), (1, n, None)]
     if n >= 3:
         sl += [(-2, None, None), (0, 2, None)]
+    # steps combined with negative starts / stops and stops beyond the end (python slice semantics: dense[a:b:c] for any a, b and c >= 1)
+    if n >= 2:
+        sl += [(-n, None, 2), (-2, None, 2), (None, -1, 2), (-n - 3, None, 2), (0, n + 5, 2)]
+    if n >= 4:
+        sl += [(-3, None, 2), (-4, -1, 2), (1, -1, 3), (-n, None, 3)]
     if with_empty:
         sl += [(n, None, None), (1, 1, None)]
     out = [['i', i] for i in ints]
